@@ -156,7 +156,31 @@ def gen_allsplits(path, tier):
 
 
 # --------------------------------------------------------------------------
+CHUNK = 20000   # scenarios per replay/validation round (bounds trace size and TLC memory)
+
+
 def _validate(ck, sw, name, beh, label, want_sample=False):
+    with open(beh) as f:
+        nlines = sum(1 for _ in f)
+    if nlines <= CHUNK:
+        return _validate1(ck, sw, name, beh, label, want_sample)
+    bads = []
+    with open(beh) as f:
+        k = 0
+        while True:
+            part = [line for _, line in zip(range(CHUNK), f)]
+            if not part:
+                break
+            pb = "%s.c%d" % (beh, k)
+            with open(pb, "w") as g:
+                g.writelines(part)
+            bads += _validate1(ck, sw, "%s_c%d" % (name, k), pb, "%s [chunk %d]" % (label, k), want_sample and k == 0)
+            os.remove(pb) if not bads else None
+            k += 1
+    return bads
+
+
+def _validate1(ck, sw, name, beh, label, want_sample=False):
     trace = os.path.join(ck.work, "trace_%s.ndjson" % name)
     summ, _ = vlib.run_replay(["wsdec", "-in", beh, "-out", trace])
     bads, r = vlib.validate_trace(sw, "WsDecMonTrace", "WsDecMonTrace.cfg", trace, timeout=1500,
@@ -183,6 +207,8 @@ def _validate(ck, sw, name, beh, label, want_sample=False):
             {k: v for k, v in s.items() if k in ("ev", "max", "segs", "take", "kind", "flen", "fin", "rsv", "op", "m", "plen", "reuse")}
             for s in json.loads(vlib.nth_line(beh, sid))],
             "trace_excerpt": vlib.read_scenario(trace, sid)[:8]})
+    if not bads:
+        os.remove(trace)
     return bads
 
 
